@@ -45,6 +45,9 @@ func roundTrip(x *mc.Exec, schema *j.Schema, res j.Resource, doc bool) (got j.Re
 				}
 				got = r
 			}
+		} else if c01ExploreMemberOrder {
+			// which member of the payload is visited first is the runtime's choice
+			WithMapDevIn(x, map[string]bool{"UnmarshalResource": true}, func() { got, err = j.UnmarshalResource(out, schema) })
 		} else {
 			got, err = j.UnmarshalResource(out, schema)
 		}
@@ -57,6 +60,10 @@ func roundTrip(x *mc.Exec, schema *j.Schema, res j.Resource, doc bool) (got j.Re
 	}
 	return got, "", "", out
 }
+
+// c01ExploreMemberOrder is set by the harnesses that put the member-visiting
+// order of UnmarshalResource under explorer control (deviation bound 1).
+var c01ExploreMemberOrder = false
 
 func implName(soft bool) string {
 	if soft {
@@ -108,6 +115,15 @@ func c01Single(x *mc.Exec) {
 	c01Check(x, "single", schema, res, soft, k.String())
 }
 
+// c01PairValues: how many values per kind enter the 2-way combinations
+// (quick: 5, thorough: the whole boundary alphabet).
+func c01PairValues() int {
+	if Thorough() {
+		return 0
+	}
+	return 5
+}
+
 func wideTypeD(name, other string) TypeD {
 	d := TypeD{Name: name}
 	for i, k := range AllKinds() {
@@ -142,14 +158,14 @@ func c01Wide(x *mc.Exec) {
 		b := a + 1 + x.Choose(len(kinds)-a, "second")
 		if b >= len(kinds) {
 			// pair (a, relationship)
-			va := Values(kinds[a], 5)
+			va := Values(kinds[a], c01PairValues())
 			i := x.Choose(len(va), "va")
 			res.Set(fmt.Sprintf("a%02d", a), CloneVal(va[i]))
 			res.Set("one", "o1")
 			res.Set("many", []string{"m2", "m1"})
 			desc = fmt.Sprintf("pair a%02d=%s with relationships", a, ShowVal(va[i]))
 		} else {
-			va, vb := Values(kinds[a], 5), Values(kinds[b], 5)
+			va, vb := Values(kinds[a], c01PairValues()), Values(kinds[b], c01PairValues())
 			i, jx := x.Choose(len(va), "va"), x.Choose(len(vb), "vb")
 			res.Set(fmt.Sprintf("a%02d", a), CloneVal(va[i]))
 			res.Set(fmt.Sprintf("a%02d", b), CloneVal(vb[jx]))
@@ -172,35 +188,116 @@ func c01Rel(x *mc.Exec) {
 	// includes ids that JSON must escape (control characters, DEL, a
 	// non-printable supplementary-plane rune, quote and backslash)
 	pool := []string{"a", "b", "c\x01\x7f", "\a\v\x00\U000E0001\"\\é"}
-	n := x.Choose(4, "to-many len")
+	maxLen := 3
+	if Thorough() {
+		maxLen = 4
+	}
+	n := x.Choose(maxLen, "to-many len")
 	many := []string{}
 	for i := 0; i < n; i++ {
 		many = append(many, pool[x.Choose(len(pool), "to-many id")])
 	}
+	twos := []string{"", "t2"}
+	two := twos[x.Choose(len(twos), "second to-one")]
 	d := TypeD{Name: "t", Attrs: []AttrD{{"s", Kind{j.AttrTypeString, false}}},
-		Rels: []RelD{{"one", true, "u", "back"}, {"many", false, "u", ""}}}
+		Rels: []RelD{{"one", true, "u", "back"}, {"many", false, "u", ""}, {"two", true, "u", ""}}}
 	u := TypeD{Name: "u", Rels: []RelD{{"back", false, "t", "one"}}}
 	schema := BuildSchema([]TypeD{d, u}, []bool{soft, softU})
 	res := schema.Types[0].New()
 	res.Set("id", id)
 	res.Set("one", one)
 	res.Set("many", append([]string{}, many...))
-	desc := fmt.Sprintf("%s id=%q one=%q many=%v other=%s", implName(soft), id, one, many, implName(softU))
+	res.Set("two", two)
+	desc := fmt.Sprintf("%s id=%q one=%q two=%q many=%v other=%s", implName(soft), id, one, two, many, implName(softU))
 	x.Render(desc)
 	x.R.Mark("nontrivial", mc.Hash(desc))
 	x.R.Sample("rel", desc)
+	c01ExploreMemberOrder = true
+	defer func() { c01ExploreMemberOrder = false }()
 	c01Check(x, "rel", schema, res, soft, "rel")
+}
+
+// c01APIBuilt: the schema is built step by step through the Schema API (types
+// added without maps, attributes and a two-way relationship added afterwards)
+// with lookups interleaved at every subset of positions, then a resource using
+// every field is round-tripped.
+func c01APIBuilt(x *mc.Exec) {
+	type step struct {
+		name string
+		do   func(s *j.Schema) error
+		need []int
+	}
+	steps := []step{
+		{"AddType(t)", func(s *j.Schema) error { return s.AddType(j.Type{Name: "t"}) }, nil},
+		{"AddType(u)", func(s *j.Schema) error { return s.AddType(j.Type{Name: "u"}) }, nil},
+		{"AddAttr(t.s)", func(s *j.Schema) error { return s.AddAttr("t", j.Attr{Name: "s", Type: j.AttrTypeString}) }, []int{0}},
+		{"AddTwoWayRel(t.one<->u.back)", func(s *j.Schema) error {
+			return s.AddTwoWayRel(j.Rel{FromType: "t", FromName: "one", ToOne: true, ToType: "u", ToName: "back"})
+		}, []int{0, 1}},
+		{"AddRel(t.many->u)", func(s *j.Schema) error {
+			return s.AddRel("t", j.Rel{FromType: "t", FromName: "many", ToType: "u"})
+		}, []int{0}},
+	}
+	done := map[int]bool{}
+	s := &j.Schema{}
+	desc := ""
+	for len(done) < len(steps) {
+		var ready []int
+		for i, st := range steps {
+			ok := !done[i]
+			for _, n := range st.need {
+				ok = ok && done[n]
+			}
+			if ok {
+				ready = append(ready, i)
+			}
+		}
+		i := ready[x.Choose(len(ready), "next step")]
+		if err := steps[i].do(s); err != nil {
+			x.Fail("C01:api-built:step-failed", "%s failed after [%s]: %v", steps[i].name, desc, err)
+			return
+		}
+		done[i] = true
+		desc += steps[i].name + "; "
+		if x.Bool("lookups") {
+			_ = s.HasType("t")
+			_ = s.GetType("t")
+			_ = s.GetType("u")
+			desc += "lookups; "
+		}
+	}
+	x.Render(desc)
+	x.R.Sample("api-built", desc)
+	x.R.Mark("nontrivial", mc.Hash(desc))
+	typ := s.GetType("t")
+	res := typ.New()
+	res.Set("id", "id1")
+	res.Set("s", "v")
+	res.Set("one", "u1")
+	res.Set("many", []string{"u2", "u1"})
+	c01Check(x, "api-built", s, res, true, "api-built")
+	// the other end of the two-way relationship
+	tu := s.GetType("u")
+	ru := tu.New()
+	ru.Set("id", "u1")
+	ru.Set("back", []string{"id1", "id2"})
+	if len(ru.Rels()) != 1 {
+		x.Fail("C01:api-built:type-u", "after [%s] a new resource of type u has relationships %v", desc, SortedKeys(ru.Rels()))
+		return
+	}
+	c01Check(x, "api-built", s, ru, true, "api-built-u")
 }
 
 func init() {
 	Register(&Prop{
 		ID: "C01",
-		Rule: "Engine A, all choices Full: (a) 28 kinds x {soft,struct-backed} x every value of the kind's boundary alphabet (min/max of each width, uint64 > 2^63, NUL/multi-byte/HTML strings, zoned sub-second times in years 1..9999, empty/short byte strings, typed nil); (b) a 28-attribute type: 10 diagonals and all 2-way (kind,value) combinations with 5 values per kind, x 4 soft/struct schema mixes; (c) 10 IDs x 5 to-one x all to-many lists over {a,b,c} up to length 3 incl. repeats x 4 mixes. Each case goes through MarshalResource->UnmarshalResource and MarshalDocument->UnmarshalDocument; oracle = field-by-field comparator written in the harness (never the library's Equal). Every case is distinct by construction; all are counted non-trivial (each carries a boundary value or a pair)",
+		Rule: "Engine A, all choices Full: (a) 28 kinds x {soft,struct-backed} x every value of the kind's boundary alphabet (min/max of each width, uint64 > 2^63, NUL/multi-byte/HTML strings, zoned sub-second times in years 1..9999, empty/short byte strings, typed nil); (b) a 28-attribute type: 10 diagonals and all 2-way (kind,value) combinations with 5 values per kind (thorough: the whole alphabet of each kind), x 4 soft/struct schema mixes; (c) 10 IDs x 5 to-one x all to-many lists over 4 ids (two needing escapes) up to length 2 (thorough 3) incl. repeats, two to-one relationships, the member-visiting order of UnmarshalResource explored (deviation bound 1) x 4 mixes. (d) a schema built step by step through AddType/AddAttr/AddRel/AddTwoWayRel in every dependency-respecting order with lookups interleaved at every subset of positions. Each case goes through MarshalResource->UnmarshalResource and MarshalDocument->UnmarshalDocument; oracle = field-by-field comparator written in the harness (never the library's Equal). Every case is distinct by construction; all are counted non-trivial (each carries a boundary value or a pair)",
 		Assumptions: []string{"years 1..9999, whole-minute zone offsets, valid UTF-8, no non-nil pointer to a nil byte slice (stated domain)", "to-many compared as sets; nil byte string == empty byte string"},
 		Harnesses: []Harness{
 			{Name: "C01/single", Body: c01Single},
 			{Name: "C01/wide", Body: c01Wide},
-			{Name: "C01/rel", Body: c01Rel},
+			{Name: "C01/rel", Body: c01Rel, Dev: func() int { return 1 }},
+			{Name: "C01/api-built", Body: c01APIBuilt},
 		},
 	})
 }
